@@ -29,9 +29,25 @@ func VP_C02_Streams() {
 		s := vpOffer(vpS.sessions[0], "stream")
 		s.push(append(vpDelim([]byte("/multistream/1.0.0")), vpDelim([]byte(name))...))
 		streams = append(streams, s)
+		if vp.Param("burst") == 1 {
+			continue // all streams are opened back to back before any handler gets to run
+		}
 		vp.Quiesce()
 		// the i+1 streams offered so far have all reached their channel although none has finished
 		vp.Assert(a.opens+b.opens == i+1 && vpS.pipeCalls == i+1, "new-logical-connection-served-while-earlier-ones-are-still-open")
+	}
+	if vp.Param("burst") == 1 {
+		vp.Quiesce()
+		vp.Assert(a.opens+b.opens == k && vpS.pipeCalls == k, "every-logical-connection-opened-back-to-back-is-served")
+		for _, s := range streams { // each stream was negotiated exactly once (one multistream header, one echo of its channel)
+			hdr := 0
+			for i := 0; i+20 <= len(s.out); i++ {
+				if string(s.out[i:i+20]) == "\x13/multistream/1.0.0\n" {
+					hdr++
+				}
+			}
+			vp.Assert(hdr == 1, "each-stream-negotiated-by-exactly-one-handler")
+		}
 	}
 	close(vpS.pipeBlock)
 	vp.Quiesce()
